@@ -155,6 +155,24 @@ def huge_reference_case(draw):
             "start": start, "end": start + q[-1] + 1}
 
 
+@st.composite
+def long_query_case(draw):
+    """a contig-sized query: the search window along the seed diagonal holds more than 1024 / 2048 / 4096 reference labels
+    (block and chunk sizes of a vectorised or batched pairing are of this order)"""
+    k = draw(st.sampled_from([1030, 1300, 2060, 2500, 4100]))
+    n = k + draw(st.integers(10, 400))
+    g = draw(st.integers(400, 3000))
+    jit = draw(st.integers(1, g))
+    r = [1000 + i * g + (i * i * 7) % jit for i in range(n)]
+    i0 = draw(st.integers(0, n - k))
+    D = draw(st.sampled_from([200, 1500]))
+    a, b = draw(st.integers(1, 50)), draw(st.integers(0, 50))
+    q = sorted(set(max(0, r[i0 + j] - r[i0] + ((a * j + b) * 37) % (D + 1) - D // 2) for j in range(k) if (a * j + b) % 17))
+    start = r[i0]
+    return {"r": r, "q": q, "qlen": q[-1] + 1, "shift": draw(st.sampled_from([0, 3])), "rev": draw(st.booleans()), "maxd": D,
+            "start": start, "end": start + q[-1] + 1}
+
+
 def check_history(case):
     """one AlignerEngine used for a sequence of calls, as one worker uses it for a whole molecule and then for the
     fragments of that molecule (same molecule id and length, fewer labels, label-number offset), on either strand and
@@ -302,6 +320,9 @@ def subchecks(tier):
     ]
     subs.append(Sub("huge-reference", "hyp", check, strategy=huge_reference_case, examples=32 if q else 600, shrink_budget=6,
                     describe="references of 33000-66000 labels, the query placed beyond label 32767"))
+    subs.append(Sub("long-query", "hyp", check, strategy=long_query_case, examples=16 if q else 600, shrink_budget=6,
+                    sample_filter=lambda c: dict(c, r=f"{len(c['r'])} labels from {c['r'][0]}", q=f"{len(c['q'])} labels"),
+                    describe="queries of 1000-4100 labels: more than 1024 / 2048 / 4096 reference labels inside one search window"))
     subs.append(Sub("engine-history", "hyp", check_history, strategy=history_case, examples=12000 if q else 300000, shrink_budget=1500,
                     describe="one engine instance reused for a whole molecule, its fragments, the other strand and other seed offsets",
                     required_classes=("then-fragment", "then-strand")))
